@@ -37,6 +37,11 @@ type flowInfo struct {
 	toks    []int
 }
 
+type fnPara struct {
+	words []int
+	notes []int // indices into Flows
+}
+
 // General is one generated general document.
 type General struct {
 	HTML     string
@@ -44,11 +49,12 @@ type General struct {
 	FlowOf   map[int]int // token id -> flow index
 	Features map[string]bool
 	// Letters: the marker letter that starts a paragraph styled with ::first-letter -> is the letter floated
-	Letters    map[string]bool
-	BigSpan    bool    // a span with a larger font holds one or two letters that are not a token
-	Footnotes  bool    // float:footnote elements (calls and markers are generated digits)
-	PagesCount bool    // a margin box shows counter(page) "/" counter(pages): every page is made again
-	FFParas    [][]int // the tokens of each paragraph with a floated ::first-letter, in order
+	Letters       map[string]bool
+	BigSpan       bool     // a span with a larger font holds one or two letters that are not a token
+	Footnotes     bool     // float:footnote elements (calls and markers are generated digits)
+	PagesCount    bool     // a margin box shows counter(page) "/" counter(pages): every page is made again
+	FootnoteParas []fnPara // paragraphs with footnotes: their words and footnote flows
+	FFParas       [][]int  // the tokens of each paragraph with a floated ::first-letter, in order
 	// FFFirstTok: the token glued to the marker letter of a paragraph with a FLOATED ::first-letter
 	FFFirstTok map[int]bool
 	// InlineFloatPara: tokens of paragraphs that contain a float between two words of a line
@@ -184,14 +190,18 @@ func (g *ggen) footnotePara(words, notes int, style string) {
 		class = ` class="tp"` // ::after shows counter(pages): the page holding this paragraph is made again
 	}
 	fmt.Fprintf(&g.buf, `<div%s style="%s">`, class, style)
+	var fp fnPara
+	defer func() { g.doc.FootnoteParas = append(g.doc.FootnoteParas, fp) }()
 	for i := 0; i < words; i++ {
 		if i > 0 {
 			g.buf.WriteString(" ")
 		}
 		g.buf.WriteString(g.tok())
+		fp.words = append(fp.words, g.n)
 		if i < notes {
 			call := g.n
 			restore, id := g.newFlow(flowFootnote)
+			fp.notes = append(fp.notes, g.cur)
 			g.doc.Flows[g.cur].callTok = call
 			fmt.Fprintf(&g.buf, `<span id="%s" class="fn">`, id)
 			g.lines(1+g.r.Intn(2), true)
@@ -908,8 +918,46 @@ func generalCase(m *mp.Model, doc *General, pages []*bo.PageBox, rec *render.Rec
 					}
 				}
 			}
+			// KF02-11 history predicate: pages made twice (counter(pages) content); the duplicated words belong to
+			// a paragraph with footnotes, each lies on exactly two consecutive pages, and a footnote of that
+			// paragraph is itself laid out twice or on a later page than its call (the footnote area overflowed)
+			fnDup := map[int]bool{}
+			if v == "dup" && doc.PagesCount {
+				for _, fp := range doc.FootnoteParas {
+					moved := false
+					for _, gi := range fp.notes {
+						cp, okc := pageOfTok[doc.Flows[gi].callTok]
+						if len(perPageFlow[gi]) >= 2 {
+							moved = true
+						}
+						for pg := range perPageFlow[gi] {
+							if okc && pg > cp {
+								moved = true
+							}
+						}
+					}
+					if !moved {
+						continue
+					}
+					for _, t := range fp.words {
+						var pgs []int
+						for pg, cnt := range perPageFlow[fi] {
+							if cnt[t] > 0 {
+								pgs = append(pgs, pg)
+							}
+						}
+						sort.Ints(pgs)
+						if badSet[t] && len(pgs) == 2 && pgs[1] == pgs[0]+1 {
+							fnDup[t] = true
+						}
+					}
+				}
+			}
+			var fnd []string
 			for _, t := range bad {
 				switch {
+				case fnDup[t]:
+					fnd = append(fnd, Tok(t))
 				case ffPrefix[t]:
 					ff = append(ff, Tok(t))
 				case doc.InlineFloatPara[t]:
@@ -920,6 +968,9 @@ func generalCase(m *mp.Model, doc *General, pages []*bo.PageBox, rec *render.Rec
 			}
 			if len(ff) != 0 {
 				lostFFWords = append(lostFFWords, ff...)
+			}
+			if len(fnd) != 0 {
+				add("footnote-call-line-duplicated", fmt.Sprintf("words of a paragraph with footnotes laid out on two consecutive pages: %v", fnd))
 			}
 			if len(inl) != 0 {
 				add("float-in-line", fmt.Sprintf("words of a line glued to a float: text %s %v", v, inl))
